@@ -88,6 +88,30 @@ def path_cases(tier, rng):
     for d in (0, 1):
         for h in corpus:
             yield hist_case(d, True, h, src="corpus")
+    # a query, then a change of the graph that keeps the snapshot ids, the number of pairs and the total volume, then
+    # the same query again (warm-up queries are forced right before the change): clear() + relabelled refill, and a
+    # further run of an existing pair on existing ids
+    for i in range(12 if tier == "quick" else 120):
+        d = i % 2
+        nn = rng.choice([3, 4])
+        ops = temporal_graph(rng, nn, rng.choice([2, 3]), bool(d), p=0.4, spans=False)
+        if len(ops) < 2:
+            continue
+        perm = list(range(1, nn + 1)); rng.shuffle(perm)
+        if perm == sorted(perm):
+            perm = perm[1:] + perm[:1]
+        ops2 = [[o[0], perm[o[1] - 1], perm[o[2] - 1], o[3], o[4]] for o in ops]
+        c = hist_case(d, True, ops + [["clear"]] + ops2, src="stale-memo")
+        c["warm"] = len(ops)
+        yield c
+        # same ids, same pairs: move one interaction to another existing instant of an existing pair
+        ts = sorted({o[3] for o in ops})
+        o = rng.choice(ops)
+        later = [t for t in ts if t > o[3] + 1]
+        if later:
+            c = hist_case(d, True, ops + [["add", o[1], o[2], rng.choice(later), None]], src="stale-memo")
+            c["warm"] = len(ops)
+            yield c
     # node ids that contain the '_' of the occurrence names "node_time" (1 -> "a", 2 -> "a_1": "a"@1 reads like node 2)
     for d in (0, 1):
         for h in ([A(2, 3, 1), A(3, 5, 2)], [A(1, 3, 1), A(1, 2, 1), A(2, 5, 2), A(3, 4, 2)], [A(1, 2, 1), A(2, 8, 2), A(8, 5, 3)]):
@@ -119,7 +143,7 @@ def path_cases(tier, rng):
 def queries(case, rng):
     ts = gen.times_of(case["ops"]) or [0]
     lo, hi = min(ts), max(ts)
-    nodes = sorted({x for op in case["ops"] for x in (op[1], op[2])}) or [1]
+    nodes = sorted({x for op in case["ops"] if op[0] == "add" for x in (op[1], op[2])}) or [1]
     qs = []
     for _ in range(3):
         u = rng.choice(nodes)
@@ -142,10 +166,17 @@ class PathsBase:
     case_timeout = 4
 
     @staticmethod
+    def model_skip(line):
+        """trpsub uses the real numpy generator: the model only knows the answer must be 1 (C13_sample_subset)"""
+        return False
+
+    @staticmethod
     def warm_ok(prefix, line):
         """warm-up queries only for roots that already exist (the properties quantify over roots in the graph)"""
         w = line.split()
-        if w[0] in ("dag", "trp"):
+        if w[0] == "occrt":
+            return False
+        if w[0] in ("dag", "trp", "trps", "trpsub"):
             return int(w[2]) in gen.nodes_of(prefix["ops"])
         return True
 
@@ -155,6 +186,12 @@ class PathsBase:
             c["q"] = queries(c, rng)
             ts = gen.times_of(c["ops"]) or [0]
             c["all"] = [rng.choice([None, min(ts)]), rng.choice([None, max(ts)]), rng.choice([None, rng.choice(ts)])]
+            # sample < 1: numpy's draw is injected as a permutation of 0..199 (restricted to the existing pair indices)
+            perm = list(range(200)); rng.shuffle(perm)
+            c["samp"] = [rng.choice([[1, 2], [1, 4], [3, 4], [1, 2]]), perm, rng.randrange(10 ** 6)]
+            # a DAG node name: any characters, '_' and digits included
+            nm = "".join(rng.choice("ab_7-_") for _ in range(rng.choice([0, 1, 2, 3, 5])))
+            c["occ"] = [rng.choice([0, 3, -12, 1700000000]), [ord(ch) for ch in (nm if nm != "x" else "y")]]
             yield c
 
     @staticmethod
@@ -163,11 +200,16 @@ class PathsBase:
         lo, hi = gen.window(case["ops"], 1)
         L += [gen.op_line(0, op) for op in case["ops"]]
         L += ["dump 0", "pres 0 %d %d" % (lo, hi)]
+        (num, den), perm, seed = case["samp"]
         for (u, v, s, e) in case["q"]:
             L.append("dag 0 %d %s %s %s" % (u, gen.T(v), gen.T(s), gen.T(e)))
             L.append("trp 0 %d %s %s %s" % (u, gen.T(v), gen.T(s), gen.T(e)))
+            L.append("trps 0 %d %s %s %s %d %d %s" % (u, gen.T(v), gen.T(s), gen.T(e), num, den, " ".join(map(str, perm))))
+            L.append("trpsub 0 %d %s %s %s %d %d %d" % (u, gen.T(v), gen.T(s), gen.T(e), num, den, seed))
         a, b, m = case["all"]
         L.append("atrp 0 %s %s %s" % (gen.T(a), gen.T(b), gen.T(m)))
+        t, codes = case["occ"]
+        L.append(("occrt %d %s" % (t, " ".join(map(str, codes)))).rstrip())
         return L
 
     @staticmethod
@@ -181,8 +223,8 @@ class PathsBase:
         qs = []
         i = 3 + n
         for q in case["q"]:
-            qs.append((q, outs[i], outs[i + 1])); i += 2
-        return dump, pres, qs, outs[i]
+            qs.append((q, outs[i], outs[i + 1], outs[i + 2], outs[i + 3])); i += 4
+        return dump, pres, qs, outs[i], outs[i + 1]
 
     @staticmethod
     def nontrivial(case, outs):
@@ -235,12 +277,18 @@ class C12(PathsBase):
         pr = PathsBase.parts(case, outs)
         if pr is None:
             return []
-        dump, pres, qs, allp = pr
+        dump, pres, qs, allp, occ = pr
         directed = bool(case["cls"])
         tab = nbr_table(directed, pres)
         ids = dump["ids"]
         fails = []
-        for (u, v, s, e), dag, trp in qs:
+        t_occ, codes = case["occ"]
+        if occ != [codes, [120], t_occ]:
+            fails.append(F("C12.occurrence_name_decoding", name="".join(map(chr, codes)), time=t_occ, got=occ))
+        for (u, v, s, e), dag, trp0, trps, trpsub in qs:
+          for trp in (trp0, trps):
+            if trp == "skip":
+                continue
             if oracles.is_err(trp):
                 if not (trp == "E:VE" and not window_valid(ids, s, e)):
                     fails.append(F("C12.raised", query=[u, v, s, e], got=trp))
@@ -281,7 +329,7 @@ class C13(PathsBase):
         pr = PathsBase.parts(case, outs)
         if pr is None:
             return []
-        dump, pres, qs, allp = pr
+        dump, pres, qs, allp, _occ = pr
         directed = bool(case["cls"])
         tab = nbr_table(directed, pres)
         ids = dump["ids"]
@@ -290,9 +338,18 @@ class C13(PathsBase):
 
         def has_node(u, t):
             return bool(tab.get((u, t))) or any(u in vs for (a, tt), vs in tab.items() if tt == t)
-        for (u, v, s, e), dag, trp in qs:
+        for (u, v, s, e), dag, trp, trps, trpsub in qs:
             if not window_valid(ids, s, e) or not ids:
                 continue
+            # sample < 1: a subset of the full result (with the injected draw and with numpy's own)
+            if trpsub != 1 and not oracles.is_err(trp):
+                fails.append(F("C13.sample_not_subset", query=[u, v, s, e], sample=case["samp"][0], seed=case["samp"][2], got=trpsub))
+            if isinstance(trps, dict) and isinstance(trp, dict):
+                extra = [p for k, g in trps.items() for p in g["paths"] if p not in trp.get(k, {"paths": []})["paths"]]
+                if extra:
+                    fails.append(F("C13.sample_not_subset", query=[u, v, s, e], sample=case["samp"][0], unexpected=extra[:3]))
+            elif trps != "skip" and oracles.is_err(trps) != oracles.is_err(trp):
+                fails.append(F("C13.sample_raised", query=[u, v, s, e], got=trps))
             if oracles.is_err(trp):
                 fails.append(F("C13.raised", query=[u, v, s, e], got=trp)); continue
             got = {k: g["paths"] for k, g in trp.items() if g["n"]}
@@ -345,7 +402,7 @@ class C15(PathsBase):
         fails = []
         i = 3 + n
         for (u, v, s, e) in case["q"]:
-            dag = outs[i]; i += 2
+            dag = outs[i]; i += 4
             if not ids:
                 if oracles.is_err(dag) or dag["edges"] or dag["src"] or dag["tgt"]:
                     fails.append(F("C15.no_snapshots", query=[u, v, s, e], got=dag))
@@ -430,6 +487,20 @@ class C14:
         for k in (1, 2, 3):
             for combo in itertools.product(pool, repeat=k):
                 yield {"paths": [list(p) for p in combo], "src": "exh-pool"}
+        # (hops, duration, arrival) combinations with waiting gaps: the fastest paths need not contain a shortest one,
+        # and the shortest need not contain a fastest one
+        def mk(h, d, t0):
+            """h hops from 1 to 2 lasting d (d >= h - 1), starting at t0"""
+            mids = [10 + h * 10 + j for j in range(h - 1)]
+            ns = [1] + mids + [2]
+            ts = [t0 + j for j in range(h - 1)] + [t0 + d]
+            return [[ns[j], ns[j + 1], ts[j]] for j in range(h)] if h > 1 else [[1, 2, t0]]
+        pool2 = [mk(h, d, t0) for (h, d, t0) in ((1, 0, 9), (2, 8, 0), (2, 1, 5), (3, 3, 0), (3, 3, 2), (4, 3, 1), (4, 5, 0), (3, 8, 0), (2, 3, 4), (5, 4, 0))]
+        reps = 3 if tier == "quick" else 4
+        for k in range(1, reps + 1):
+            for combo in itertools.combinations(pool2, k):
+                for order in ([combo] if k == 1 else [combo, combo[::-1]]):
+                    yield {"paths": [list(p) for p in order], "src": "exh-pool2"}
         for _ in range(n):
             yield {"paths": random_paths(rng), "src": "rand"}
 
